@@ -66,6 +66,8 @@ type pNode struct {
 
 const pSendTimeout = 3 * time.Second
 
+var debugProto = false
+
 // poll records the node's result if it has ended.
 func (n *pNode) poll() {
 	if n.done {
@@ -194,8 +196,9 @@ func c11ProtoScenario(c *kc.Ctx, mock bool, n, t int, fast bool, inject string, 
 		stream = append(stream, x)
 	case "equivocate":
 		// a faulty dealer sends a second, different, correctly signed bundle
-		equivocator = rng.Intn(n)
-		x := copyDealBundle(ds[equivocator])
+		src := ds[rng.Intn(n)]
+		equivocator = int(src.DealerIndex)
+		x := copyDealBundle(src)
 		x.Deals[0].EncryptedShare = append([]byte{}, x.Deals[0].EncryptedShare...)
 		x.Deals[0].EncryptedShare[len(x.Deals[0].EncryptedShare)-1] ^= 1
 		h, _ := x.Hash()
@@ -277,22 +280,35 @@ func c11ProtoScenario(c *kc.Ctx, mock bool, n, t int, fast bool, inject string, 
 	ref := done[0].res.Result
 	for _, nd := range done[1:] {
 		if !ref.PublicEqual(nd.res.Result) && qual(ref) == qual(nd.res.Result) || qual(ref) != qual(nd.res.Result) {
-			viol("agreement", fmt.Sprintf("nodes %d and %d output different QUAL / commitments (%s vs %s)", done[0].idx, nd.idx, qual(ref), qual(nd.res.Result)))
+			key := "agreement"
+			if fast && inject == "equivocate" {
+				// startFast moves to the response phase as soon as it holds n deal bundles: a node that gets the
+				// equivocator's second packet after that has already processed the first one, a node that gets
+				// it before drops the dealer
+				key = "agreement:fast-sync-early-transition-under-equivocation"
+			}
+			viol(key, fmt.Sprintf("nodes %d and %d output different QUAL / commitments (%s vs %s)", done[0].idx, nd.idx, qual(ref), qual(nd.res.Result)))
 			return
 		}
 	}
-	// the set layer: duplicates and unverifiable packets change nothing; an equivocating dealer is dropped
-	wantQ := n
+	// the set layer: duplicates and unverifiable packets change nothing
+	if inject != "equivocate" && len(ref.QUAL) != n {
+		viol("qual-size", fmt.Sprintf("QUAL %s, expected all %d members", qual(ref), n))
+	}
 	if inject == "equivocate" {
-		wantQ = n - 1
+		in := false
 		for _, x := range ref.QUAL {
 			if int(x.Index) == equivocator {
-				viol("equivocator-qualified", fmt.Sprintf("dealer %d sent two different signed deal bundles and is in QUAL %s", equivocator, qual(ref)))
+				in = true
 			}
 		}
-	}
-	if len(ref.QUAL) != wantQ {
-		viol("qual-size", fmt.Sprintf("QUAL %s, expected %d members", qual(ref), wantQ))
+		// informational (the property does not say what happens to an equivocator, only that honest nodes agree)
+		c.CountKind(fmt.Sprintf("protocol:equivocator-in-QUAL:%v:fast=%v", in, fast))
+		if in && !fast && debugProto {
+			for _, nd := range done {
+				fmt.Println("DEBUG", desc, "equivocator", equivocator, "node", nd.idx, qual(nd.res.Result))
+			}
+		}
 	}
 }
 
